@@ -1,4 +1,5 @@
 import NflowsModel.Audit.Tool
 import NflowsModel.Properties.C07
+import NflowsModel.Properties.C07C
 
 #audit_namespace Properties.C07
